@@ -309,7 +309,9 @@ def evaluate(scs, results, model, spec, variant):
             ok, late, child_left, fd_left = [bool(x) for x in s]
             if ok:
                 continue
-            tag = f"{sc['mode']}:{sc['path']}"
+            group = "scope-cancelled-exit" if sc["path"] in LEVEL else ("task-cancelled-exit" if sc["path"] in ("cancel_task", "timeout_task")
+                                                                        else "plain-exit")
+            tag = f"{sc['mode']}:{group}"
             detail = (f"duration {r['dur']:.2f}s, child {r['state']} (pid {r['pid']}, rc {r['returncode']}), signals {r['signals']}, "
                       f"fds {r['fd_before']}->{r['fd_after']} (after gc {r['fd_after_gc']})")
             if child_left:
@@ -320,8 +322,8 @@ def evaluate(scs, results, model, spec, variant):
                 else:
                     v["spec"].append((f"child-left-running:{tag}", detail))
             elif fd_left:
-                if sc["mode"].startswith("floods") and r["fd_after_gc"] <= r["fd_before"]:
-                    v["spec"].append(("stdout-pipe-open-until-gc:flooding-child", detail))
+                if sc["mode"].startswith("floods") and r["fd_after"] - r["fd_before"] == 1:
+                    v["spec"].append(("stdout-pipe-left-open:flooding-child", detail))
                 else:
                     v["spec"].append((f"fd-left-open:{tag}", detail))
             if late:
@@ -402,6 +404,7 @@ def explore(ctx, model, spec):
     n_workers = int(os.environ.get("VERIF_C16_WORKERS", "12"))
     variant = detect_variant(ctx, model, spec, n_workers)
     ctx.extra["code_variant"] = VARIANTS[variant]
+    ctx.extra["repo_under_test"] = lib.REPO
     ctx.extra["full_theorems_apply"] = variant == 2
     ctx.count(f"code-variant:{variant}")
     scs = gen_scenarios(ctx)
@@ -473,6 +476,10 @@ def run(ctx):
     lib.standard_obligations(ctx, GEN, TARGETS)
     spec = lib.Driver("C16Spec")
     try:
+        if any(n.startswith("translate:") and not ok for n, ok, _d in ctx.obligations):
+            # coqdep silently drops the dependency on a Gen file that no longer exists, so make would call a driver
+            # built from the PREVIOUS translation up to date: never use it
+            raise lib.HarnessError("Gen/ShutdownGen.v could not be regenerated; the model driver would be stale")
         model = lib.Driver("C16")
         ctx.oblige("build:driver-model(C16)", True)
     except lib.HarnessError as e:
